@@ -20,8 +20,10 @@ GEN_MODULES = ['Divisor']
 REQUIRED = ['keeps_direct_seats', 'house_grows_by_adj', 'house_grows_by_adj_of_fills', 'haEval_fills', 'haEval_nodup',
             'adj_zero_iff_no_overhang', 'allow_adj_zero_iff', 'allow_adj_eq_overhang', 'natSub_eq_max',
             'level_is_least', 'meets_lowest_iff', 'level_least_enlargement', 'level_zero_outside_tier_witness',
-            'level_terminates', 'd_hondt_unbounded', 'sainte_lague_unbounded', 'level_final_is_proportional',
-            'level_cty_is_least']
+            'level_terminates', 'level_terminates_of_no_tie', 'ha_tier_has_votes', 'd_hondt_unbounded',
+            'sainte_lague_unbounded', 'level_final_is_proportional', 'level_cty_is_least',
+            'level_cty_direct_seat_ignored_witness', 'lrHareEval_fills', 'house_grows_by_adj_lr',
+            'level_least_enlargement_ha', 'level_least_enlargement_lr']
 REQUIRED_COUNTERS = ['overhang_present', 'no_overhang', 'party_outside_tier', 'party_without_votes',
                      'levelling_iterations_ge2', 'by_constituency', 'multistage_wrapped',
                      'allow', 'level', 'd_hondt', 'sainte_lague', 'hare_lr', 'tie_in_baseline', 'multistage_depth2']
@@ -32,8 +34,30 @@ RULE = ('second-vote dicts over 2-6 parties (tie-forcing small sets, zero-vote p
         'LevelOverhang, LevelOverhangByConstituency (2-3 constituencies, fixed apportionment), alone, inside '
         'AdjustedSeatCount, and inside MultistageDistributor([direct-seat stage, AdjustedSeatCount]). Non-trivial = a '
         'non-error result with at least one direct seat; distinct by canonical request.')
-NOT_VERIFIED = []
-UNPROVED = []
+NOT_VERIFIED = [
+    'HighestAverages is the C01 model (unordered pool instead of the sorted list with bisect re-insertion); Tie keys are '
+    'compared after sorting their members (frozenset equality)',
+    "LargestRemainder('hare') is a minimal hand model (Hare quota, accept_equal, on_overaward='error', no max_seats; the "
+    'cap-overshoot branch is unreachable for the Hare quota and answers Unmodelled); termination and final = proportional '
+    'are discharged for HighestAverages only',
+    'the unfuelled while-loops are modelled with fuel = 400 evaluator calls; the same bound is imposed on the real code '
+    'by a transparent counting proxy around the evaluator (FuelExhausted on both sides)',
+    'max_seats is passed through by the flat models but always {} in the generated cases; the by-constituency models '
+    'take no max_seats',
+    'direct seats of parties outside the tier exceeding the house (n_seats < nonprop_drop) are outside the model '
+    '(Unmodelled) and outside the quantifier (direct seats sum to at most the house size)',
+    'ByConstituency is modelled for a fixed per-constituency apportionment without preselector; ByParty for simple votes '
+    'with max_seats = {}; accepts_prev_gains (inspect.signature) is not modelled — both inner evaluators accept prev_gains',
+    'MultistageDistributor: first stage = an evaluator with a fixed outcome (as MockEvaluator in tests/real/test_real_mmp.py); '
+    'depth 2 iterates a set of constituencies, the model uses list order and results are compared as sorted maps',
+]
+UNPROVED = [
+    'level_cty_final_is_proportional (ByParty party totals = overall proportional distribution of the enlarged house): '
+    'executed model + correspondence + oracle only',
+    'level_terminates / level_final_is_proportional with LargestRemainder as the evaluator: correspondence + oracle only '
+    '(house size and the literal least-enlargement statement ARE proved for the largest-remainder model)',
+    'level_terminates when the baseline result contains a Tie key (the tie need not recur)',
+]
 EXHAUSTIVE = {'thorough': False}
 NAMES = Names(prefix='p')
 CNAMES = Names(prefix='c')
@@ -144,7 +168,7 @@ def impl(case):
     if case['op'] == 'adjusted_eval' and case['kind'] == 'level_cty':
         cvotes, cprev, n = _cvotes(case), _cprev(case), case['n']
         adj = guarded(lambda: _intres(_cty_calc(case).calculate(cvotes, n, prev_gains=cprev)))
-        asc = vc.AdjustedSeatCount(_cty_calc(case), vc.ByParty(_ev(case['final']), allocator=_ev(case['final'])))
+        asc = vc.AdjustedSeatCount(_cty_calc(case), vc.ByParty(_ev(case['final']), allocator=_ev(case['alloc'])))
         if case['wrap'] == 'multistage':
             ms = vc.MultistageDistributor([_Mock(cprev), asc], depth=2)
             res = guarded(lambda: _enc_nested(ms.evaluate(cvotes, n)))
@@ -369,7 +393,8 @@ def _oracle_cty_eval(case, obs):
         return out
     root = any(cl == 'level_cty_floor_ignores_direct_seats_without_local_share' for cl, _ in out)
     if isinstance(res, dict):
-        cl = 'final_stage_error_after_ignored_direct_seats:' if root else 'final_stage_error:'
+        cl = ('final_stage_error_after_ignored_direct_seats:' if root else
+              'final_stage_error_by_party_outside_tier:' if exp is not None and exp['drop'] > 0 else 'final_stage_error:')
         return out + [(cl + str(res.get('err')) + ':' + case['final'], f'adjustment {adj}')]
     n = case['n']
     direct = {c: {i: k for i, k in ps} for c, ps in case['cprev']}
@@ -594,6 +619,10 @@ def _cty_case(rng, ev=None, op=None, wrap=None):
          '_tags': ['by_constituency', ev]}
     if c['op'] == 'adjusted_eval':
         c['final'] = ev
+        # the allocator distributes a party's seats over the constituencies; with LargestRemainder it divides by zero on
+        # a tied overall result (ByParty treats the Tie as a party without votes), so as in the DE example the allocator
+        # is a highest-averages evaluator
+        c['alloc'] = ev if ev != 'hare_lr' else 'sainte_lague'
         c['wrap'] = wrap or rng.choice(['none', 'multistage'])
         if c['wrap'] == 'multistage':
             c['_tags'] += ['multistage_wrapped', 'multistage_depth2']
@@ -644,7 +673,7 @@ def _post_tags(case):
 
 
 def generate(rng, tier):
-    N = 700 if tier == 'quick' else 12000
+    N = 600 if tier == 'quick' else 6000
     cases = []
     for _ in range(N):
         cases.append(_flat_case(rng))
@@ -663,13 +692,13 @@ def generate(rng, tier):
             cases.append(_cty_case(rng, ev=ev))
             cases.append(_cty_case(rng, ev=ev, op='adjusted_eval', wrap='multistage'))
     if tier == 'thorough':
-        # small-scope exhaustive: all vote vectors over {0..3}^<=3, n <= 5, all direct maps with sum <= n over the
-        # parties and one party without votes
+        # small-scope exhaustive: all vote vectors over {0..3}^2 (n <= 5) and {0..2}^3 (n <= 3), all direct maps with
+        # entries <= 2 and sum <= n over the parties and one party without votes, 3 evaluators, allow and level
         for m in (2, 3):
-            for vals in itertools.product(range(0, 4), repeat=m):
+            for vals in itertools.product(range(0, 4 if m == 2 else 3), repeat=m):
                 if sum(vals) == 0:
                     continue
-                for n in range(1, 6):
+                for n in range(1, 6 if m == 2 else 4):
                     for dm in itertools.product(range(0, 3), repeat=m + 1):
                         if sum(dm) > n or sum(dm) == 0:
                             continue
@@ -721,7 +750,7 @@ def describe(case):
                 f"overall_evaluator={ov})")
         if case['op'] == 'overhang_calc':
             return f"{calc}.calculate({_cvotes(case)!r}, {case['n']}, prev_gains={_cprev(case)!r})"
-        asc = f"AdjustedSeatCount({calc}, ByParty({evs[case['final']]}, allocator={evs[case['final']]}))"
+        asc = f"AdjustedSeatCount({calc}, ByParty({evs[case['final']]}, allocator={evs[case['alloc']]}))"
         if case['wrap'] == 'multistage':
             return (f"MultistageDistributor([<stage returning {_cprev(case)!r}>, {asc}], depth=2)"
                     f".evaluate({_cvotes(case)!r}, {case['n']})")
@@ -744,11 +773,22 @@ def signature(case, clause):
             or clause == 'house_size_after_ignored_direct_seats'
             or clause.startswith('final_stage_error_after_ignored_direct_seats:')):
         return 'level_cty:direct_seats_without_local_share'
+    if clause == 'house_size_by_party_outside_tier' or clause.startswith('final_stage_error_by_party_outside_tier:'):
+        return 'level_cty:by_party_outside_tier'
     return f"{case.get('op')}:{clause}"
 
 
 TECHNIQUE = ('Lean 4 proofs about evaluator-parametric models of the seat-count adjusters (loop invariant of the fuelled '
              'levelling loop; C01 theorems discharge the evaluator hypotheses for highest averages) + differential '
              'correspondence + brute-force oracle over house sizes')
-LEVEL_TEXT = ''
-LEVEL_NOTE = ''
+LEVEL_TEXT = ('The seat-count adjusters (AllowOverhang, LevelOverhang, LevelOverhangByConstituency), AdjustedSeatCount, the two-stage '
+              'MultistageDistributor (depth 1 and 2) and ByParty are modelled in Lean over an arbitrary proportional evaluator; the '
+              'clauses of C15 are theorems for all inputs: direct seats kept (any calculator/evaluator), adjustment = overhang count, '
+              'zero without overhang, the levelling result is the first adequate house size (loop invariant, any evaluator; literal '
+              'least-enlargement form for evaluators that fill the house), and for highest averages (C01 model, divisors regenerated '
+              'from divisor.py): house = n + adjustment, termination for unbounded divisors, final totals = proportional distribution '
+              'of the enlarged house (exchange argument on C01 optimality + strict separation). Model tied to the code by '
+              'differential correspondence; a brute-force oracle over house sizes states the property on the implementation.')
+LEVEL_NOTE = ('Trusted: Lean kernel + standard axioms; translate.py (divisors); the correspondence harness (2-6 parties, house <= 30, '
+              '3 evaluators, 2-3 constituencies); the C01 pool abstraction; the hand model of LargestRemainder(hare). Where the code '
+              'departs from the literal property (5 recorded findings) the model follows the code and witness theorems pin the departure.')
